@@ -296,7 +296,7 @@ PROPS["C07"] = dict(
           "wrappers built from a temporary must read their own value, at an address that is neither a referent nor the dead temporary. forward_sequence and bitset element references are checked by dedicated steps. "
           "The closure_type trait table is evaluated once as a precondition of the model (static half; not simulation). Non-trivial: at least two state-changing steps. Distinct: distinct run digests."),
     probes=["wrapper_built_from_lvalue", "wrapper_built_from_temporary_that_died", "write_through_reference_wrapper", "owner_write_behind_wrapper", "reference_wrapper_copied", "value_wrapper_copied",
-            "wrapper_assigned", "wrapper_move_assigned", "wrappers_swapped", "swap_of_two_wrappers_onto_same_referent", "forward_sequence_checked", "bitset_reference_checked", "cross_closure_kind_assignment"],
+            "wrapper_assigned", "wrapper_move_assigned", "wrappers_swapped", "swap_of_two_wrappers_onto_same_referent", "forward_sequence_checked", "bitset_reference_checked", "cross_closure_kind_assignment", "optional_element_proxies_checked"],
     components=dict(real=["include/xtl/xclosure.hpp", "include/xtl/xproxy_wrapper.hpp", "include/xtl/xoptional.hpp (closures, operator&)", "include/xtl/xmasked_value.hpp", "include/xtl/xcomplex.hpp (closures)", "include/xtl/xsequence.hpp (forward_sequence)", "include/xtl/xdynamic_bitset.hpp (xbitset_reference)"],
                     stub=["copy/move-counting tracked payload", "heap-allocated source temporaries whose lifetime the harness ends", "owner actor", "type-erased wrapper handles"]),
     assumptions=["the static half of the property (closure_type_t & co. on every cv/ref combination) is compile-time and outside this technique; only the entries the model relies on are evaluated, const-ness of by-value closures is not judged",
@@ -322,7 +322,7 @@ PROPS["C17"] = dict(
           "Non-trivial: at least two state-changing steps (registrations, erasures or successful dispatches). Distinct: distinct run digests."),
     probes=["dispatch_to_registered_tuple", "dispatch_to_unregistered_tuple", "only_other_permutation_registered", "registered_handler_erased", "handler_overwritten",
             "three_argument_dispatch", "symmetric_swap_taken", "static_dispatch_on_error", "static_dispatch_two_hierarchies", "visit_dispatched", "const_visit_dispatched", "catch_all_taken",
-            "derived_visited_by_visitor_of_base_only", "cyclic_visit_dispatched", "registration_failed_with_bad_alloc", "dispatch_after_failed_registration", "handler_threw"],
+            "derived_visited_by_visitor_of_base_only", "cyclic_visit_dispatched", "registration_failed_with_bad_alloc", "dispatch_after_failed_registration", "handler_threw", "dispatcher_copied", "visitor_of_the_other_constness"],
     components=dict(real=["include/xtl/xmultimethods.hpp (static_dispatcher, basic_dispatcher, basic_fast_dispatcher, functor_dispatcher, casters)", "include/xtl/xvisitor.hpp (acyclic and cyclic visitors, catch-all policies)"],
                     stub=["recording handlers, executors and visitors", "model map from type tuple to handler id", "class hierarchy of four concrete classes", "replaced global operator new/delete (allocation failure inside a registration)"]),
     assumptions=["every class of the hierarchy carries its own XTL_IMPLEMENT_INDEXABLE_CLASS / XTL_DEFINE_VISITABLE", "static_dispatcher type lists are ordered most-derived first",
